@@ -23,6 +23,7 @@ class Monitor:
         self.after_fail_ops = 0
         self.facts: set = set()
         self.signals: List[List[Any]] = []  # [signal, tick delivered, handled?]
+        self.reload_all_due: Dict[int, int] = {}  # slot -> tick in which a reload-all that covers it was handled
 
     def flag(self, key: str, msg: str) -> None:
         self.violations.append((key, msg))
@@ -39,6 +40,7 @@ class Monitor:
         if old is not None and old is not proc and old.state in ("zombie",) and not others:
             self.flag("C17:old-worker-not-waited-for", f"{proc!r} started before the previous occupant {old!r} was joined")
         self.obligations.pop(slot, None)
+        self.reload_all_due.pop(slot, None)
         self.starts_this_tick[slot] = self.starts_this_tick.get(slot, 0) + 1
         if self.starts_this_tick[slot] > 1:
             self.flag("C18:slot-restarted-twice-in-one-tick", f"slot {slot} restarted {self.starts_this_tick[slot]} times in tick {env.tick_no}")
@@ -72,6 +74,11 @@ class Monitor:
         if env.manager is None or not env.prepared or env.tick_no < 0:
             if env.manager is not None and len(env.manager.workers) != env.nworkers:
                 self.flag("C17:slot-count-changed", f"{len(env.manager.workers)} worker slots, configured {env.nworkers}")
+            if env.manager is not None and env.tick_no < 0:
+                # first supervision tick: every slot holds a process that has been started
+                idle = [p for p in env.manager.workers if p.state == "new"]
+                if idle:
+                    self.flag("C17:slot-without-started-worker", f"after start-up the slots of {idle!r} hold processes that were never started")
             return
         if len(env.manager.workers) != env.nworkers:
             self.flag("C17:slot-count-changed", f"{len(env.manager.workers)} worker slots, configured {env.nworkers}")
@@ -93,6 +100,11 @@ class Monitor:
         if missing and not self.must_fail and not self.shutdown_seen:
             self.flag("C18:reload-all-incomplete", f"reload-all restarts for slots {sorted(self.reload_all_slots)} handled in tick {env.tick_no} but slots {missing} were not restarted exactly once ({self.starts_this_tick})")
         self.reload_all_slots = set()
+        late = sorted(s_ for s_, t in self.reload_all_due.items() if t <= env.tick_no - 1)
+        if late and not self.must_fail and not self.shutdown_seen:
+            self.flag("C18:reload-all-incomplete", f"a reload-all was handled in tick {min(self.reload_all_due[s_] for s_ in late)} but slots {late} have not been restarted by the end of tick {env.tick_no}")
+            for s_ in late:
+                self.reload_all_due.pop(s_, None)
         if self.must_fail:
             self.flag("C18:budget-exhausted-but-still-running", f"failure budget {env.max_fails} reached ({self.budget}) but start() did not return")
         if self.shutdown_seen:
@@ -133,6 +145,11 @@ class Monitor:
         elif name == "ReloadAllAction":
             self.reload_all_this_tick = True
             self.facts.add("reload-all")
+            # whatever the manager does with it internally: every slot not restarted earlier in this tick is
+            # now owed one restart (by the end of the next tick at the latest - Queue.empty() may lag)
+            for s_ in range(env.nworkers):
+                if self.starts_this_tick.get(s_, 0) == 0:
+                    self.reload_all_due.setdefault(s_, env.tick_no)
             for sg in self.signals:
                 if sg[0] in ("HUP", "FILE") and not sg[2]:
                     sg[2] = True
@@ -209,4 +226,5 @@ class Monitor:
             self.must_fail,
             self.shutdown_seen,
             tuple((sg[0], t - sg[1]) for sg in self.signals if not sg[2]),
+            tuple(sorted((s, t - k) for s, k in self.reload_all_due.items())),
         )
